@@ -53,7 +53,11 @@ META = dict(
          "occurrences and positions, list-all names, nested results expanded — of the copy are those of the original, to "
          "every depth). PARTIAL: the view theorems need the whole structure reachable from the object (tokens and "
          "names) to be allocated and acyclic (hypothesis FD); container tokens (list/tuple/dict holding "
-         "groups, results.py:598-605) are not in the heap model: oracle only. "
+         "groups, results.py:598-605) are proved for deepcopy() only, in a separate model (deepcopyC, "
+         "PPProofs/Props/C11DeepC.lean: deepcopyC_tokens_fresh, deepcopyC_frame_tokens — the groups inside a rebuilt "
+         "container are new at every depth, the expanded nested list is preserved, own mutations never cross), not for "
+         "copy.deepcopy/pickle and not for containers nested in containers (shared by the code; opaque in the model); "
+         "the container models are tied to the class by the frames:container-tokens oracle only. "
          "from_dict: tree model of from_dict/as_dict (PPModel/Mod/PRFromDict.lean), "
          "from_dict_roundtrip proved for ALL dicts whose nested dicts are non-empty, at every depth (full strength on "
          "the tree model; its one assumption about `+=` in the loop is proved on the full model as from_dict_item_step; tied to the class by a "
@@ -119,6 +123,10 @@ THEOREMS = [
     "PP.PRHeap.deepObjN_drel",
     "PP.PRHeap.deepObjN_rel",
     "PP.PRHeap.deepObjN_spec",
+    # deepcopy() with container tokens (tuple/list/dict of groups), PPProofs/Props/C11DeepC.lean
+    "PP.PRHeap.deepcopyC_tokens_fresh",
+    "PP.PRHeap.deepcopyC_frame_tokens",
+    "PP.PRHeap.deepcopyC_corr",
 ]
 
 KINDS = ["copy", "copy.copy", "deepcopy", "copy.deepcopy", "pickle"]
@@ -605,7 +613,7 @@ def run(ctx):
     PR = pp.ParseResults
     attr_ok = lambda nm: not hasattr(PR, nm)
     proof_ok = ctx.proof_leg("PPProofs.Props.C11", THEOREMS + HEAP_THEOREMS + FROMDICT_THEOREMS,
-                              extra_modules=("PPProofs.Props.C11Heap", "PPProofs.Props.C11FromDict", "PPProofs.Props.C11Deep"))
+                              extra_modules=("PPProofs.Props.C11Heap", "PPProofs.Props.C11FromDict", "PPProofs.Props.C11Deep", "PPProofs.Props.C11DeepC"))
     ctx.rule.append(
         "start objects as in C10 (real parse results of 16 grammars incl. nested groups, list-all names, int tokens; "
         "constructor calls); kinds copy()/copy.copy/deepcopy()/copy.deepcopy/pickle; frames: 1..6 own mutations (the 15 "
